@@ -212,9 +212,9 @@ def run(ctx):
     ctx.require("programs_over_ssh", ctx.pick(30, 400))
     ctx.require("return_values_compared", ctx.pick(5000, 80000))
     ctx.require("final_contents_compared", ctx.pick(1500, 20000))
-    ctx.require("read_with_pending_writes", ctx.pick(100, 1500))
-    ctx.require("write_with_readahead", ctx.pick(100, 1500))
-    ctx.require("tell_with_pending_writes", ctx.pick(40, 600))
-    ctx.require("truncate_with_pending_writes", ctx.pick(15, 200))
+    ctx.require("read_with_pending_writes", ctx.pick(200, 3000))
+    ctx.require("write_with_readahead", ctx.pick(40, 600))
+    ctx.require("tell_with_pending_writes", ctx.pick(100, 1500))
+    ctx.require("truncate_with_pending_writes", ctx.pick(100, 1500))
     for m in D.MODES:
         ctx.require("programs_mode_" + m, ctx.pick(100, 1500))
